@@ -2,28 +2,55 @@
    fragment list gives the outputs of the flat specification, and the message left
    behind always denotes the flat text left. *)
 From MptV Require Import Base.Mem Base.Tactics C17.MessageModel C17.MessageSpec C17.MessageProofs
-  C17.MessageTok C17.MessageCopy C17.MessageArgv.
+  C17.MessageTok C17.MessageCopy C17.MessageArgv C17.MessageFail.
 Local Open Scope nat_scope.
 
-(* rings handed to message_get are well formed queues *)
-Definition op_ok (o : op) : Prop :=
-  match o with OpGet q _ _ _ => rinv q | _ => True end.
+(* side conditions of an operation run on the message F: rings handed to message_get
+   are well formed queues; the search over <big bytes> ++ message is made with part
+   lengths that are object sizes (at most SSIZE_MAX) *)
+Definition op_ok (F : list frag) (o : op) : Prop :=
+  match o with
+  | OpGet q _ _ _ => rinv q
+  | OpRBig big _ => (big <= ssize_max)%N /\ (N.of_nat (length (concat F)) <= ssize_max)%N
+  | _ => True
+  end.
 
-Lemma abs_frags m : abs (frags m) = (concat (frags m), false).
-Proof. reflexivity. Qed.
+(* ... of a history: each operation on the message the ones before it left *)
+Fixpoint ops_ok (F : list frag) (ops : list op) : Prop :=
+  match ops with
+  | [] => True
+  | o :: r => op_ok F o /\ ops_ok (fst (mstep F o)) r
+  end.
 
-Lemma step_flat F o : op_ok o ->
+(* operations whose side condition does not depend on the message *)
+Definition op_ok0 (o : op) : Prop :=
+  match o with
+  | OpGet q _ _ _ => rinv q
+  | OpRBig _ _ => False
+  | _ => True
+  end.
+
+Lemma ops_ok_of_forall ops : forall F, Forall op_ok0 ops -> ops_ok F ops.
+Proof.
+  induction ops as [|o r IH]; intros F H; [exact I|].
+  inversion H as [|? ? Ho Hr]; subst. split; [|apply IH; exact Hr].
+  destruct o; try exact I; try exact Ho. contradiction.
+Qed.
+
+Lemma step_flat F o : op_ok F o ->
   sstep (abs F) o (snd (mstep F o)) = (abs (fst (mstep F o)), snd (mstep F o)).
 Proof.
-  intros Hok. destruct o as [F'|n dest| |sep|rev b|rev k|rev set|t c e|len dest|pre|q off take vec|sep];
+  intros Hok.
+  destruct o as [F'|n dest| |sep|rev b|rev k|rev set|t c e|len dest|pre|q off take vec|sep
+                 |pre lim|sep lim pre| |which|big k];
     unfold abs at 1; cbn [sstep mstep].
   - reflexivity.
   - destruct (read_flat (msg_of F) n) as (m' & E & C & _). rewrite frags_msg_of in E, C.
-    rewrite E. cbn [fst snd]. unfold flat_read in *. cbn [fst snd] in *. rewrite abs_frags, C. reflexivity.
+    rewrite E. cbn [fst snd]. unfold flat_read in *. cbn [fst snd] in *. unfold abs. rewrite C. reflexivity.
   - rewrite length_flat, frags_msg_of. reflexivity.
   - destruct (argv_flat (msg_of F) sep) as (m' & E & C). rewrite frags_msg_of in E, C.
     rewrite E. cbn [fst snd]. destruct (flat_argv (concat F) sep) as [r t]. cbn [fst snd] in *.
-    rewrite abs_frags, C. reflexivity.
+    unfold abs. rewrite C. reflexivity.
   - destruct rev; cbn [fst snd].
     + rewrite memrchr_flat. reflexivity.
     + rewrite memchr_flat. reflexivity.
@@ -34,44 +61,56 @@ Proof.
     + rewrite memrstr_flat. reflexivity.
     + rewrite memstr_flat. reflexivity.
   - cbn [fst snd]. rewrite memtok_flat. reflexivity.
-  - destruct F as [|f0 F].
-    { rewrite memcpy_noparts by (left; reflexivity). reflexivity. }
-    destruct dest as [|d0 dest].
-    { rewrite memcpy_noparts by (right; reflexivity). reflexivity. }
-    destruct (memcpy_flat len (f0 :: F) (d0 :: dest)) as (o & E & C & _); [discriminate|discriminate|].
-    rewrite E. cbn [fst snd orb]. rewrite C.
-    destruct (flat_memcpy len (concat (f0 :: F)) (concat (d0 :: dest))). reflexivity.
+  - destruct (memcpy_flat len F dest) as (o & E & C & _).
+    rewrite E. cbn [fst snd]. rewrite C.
+    destruct (flat_memcpy len (concat F) (concat dest)). reflexivity.
   - cbn [fst snd]. rewrite append_flat, frags_msg_of. reflexivity.
   - cbn [op_ok] in Hok. pose proof (get_flat q off take vec Hok) as G.
     destruct (flat_get (ring_contents q) off take) as [w|e|].
     + destruct G as [(k & m & E & C)|(Ev & E)]; rewrite E; cbn [fst snd].
-      * rewrite abs_frags, C. reflexivity.
+      * unfold abs. rewrite C. reflexivity.
       * subst vec. reflexivity.
     + rewrite G. reflexivity.
     + contradiction.
   - rewrite array_message_flat, frags_msg_of. cbn [fst snd].
     destruct (flat_array_message (concat F) sep). reflexivity.
+  - pose proof (appl_step_flat pre lim (msg_of F)) as A. rewrite frags_msg_of in A.
+    unfold appl_out in A. destruct (m_append_lim pre lim (msg_of F)) as [[|] a]; cbn [fst snd]; rewrite <- A; reflexivity.
+  - cbn [fst snd]. rewrite array_message_lim_flat, frags_msg_of. reflexivity.
+  - reflexivity.
+  - reflexivity.
+  - cbn [op_ok] in Hok. destruct Hok as [Hb Hl]. cbn [fst snd]. rewrite rbig_flat by assumption. reflexivity.
 Qed.
 
 Definition proj (r : out * list frag) : out * list byte := (fst r, concat (snd r)).
 
-Lemma run_flat ops : forall F, Forall op_ok ops ->
+Lemma run_flat ops : forall F, ops_ok F ops ->
   map proj (mrun F ops) = srun F (abs F) ops.
 Proof.
   induction ops as [|o r IH]; intros F H; [reflexivity|].
-  inversion H as [|? ? Ho Hr]; subst. cbn [mrun srun].
-  pose proof (step_flat F o Ho) as E. destruct (mstep F o) as [F' x]. cbn [fst snd] in E.
+  destruct H as [Ho Hr]. cbn [mrun srun].
+  pose proof (step_flat F o Ho) as E. destruct (mstep F o) as [F' x]. cbn [fst snd] in E, Hr.
   rewrite E. cbn [map proj fst snd]. rewrite <- IH by exact Hr. reflexivity.
 Qed.
 
 (* no step of a history faults or runs out of loop fuel *)
 Definition bad_out (x : out) : bool :=
-  match x with OFault | OFuel | OArgv Fault | OGet Fault => true | _ => false end.
+  match x with OFault | OFuel | OArgv Fault | OGet Fault | ORBig RFault => true | _ => false end.
+
+Lemma flat_args_lim_not_fault fuel : forall s sep arr n l, flat_args_lim fuel s sep arr n l <> Fault.
+Proof.
+  induction fuel as [|fu IH]; intros s sep arr n l; cbn [flat_args_lim]; [discriminate|].
+  destruct (flat_argv s sep) as [[len|e|] t]; try discriminate.
+  destruct ((len =? 0) && negb (sep =? 0)%N); [discriminate|].
+  destruct (if len =? 0 then Some l else lim_take l) as [l1|]; [|discriminate].
+  destruct (lim_take l1) as [l2|]; [|discriminate]. apply IH.
+Qed.
 
 Lemma sstep_not_bad st o h : bad_out (snd (sstep st o h)) = false.
 Proof.
-  destruct st as [s nop].
-  destruct o as [F'|n dest| |sep|rev b|rev k|rev set|t c e|len dest|pre|q off take vec|sep]; cbn [sstep].
+  rename st into s.
+  destruct o as [F'|n dest| |sep|rev b|rev k|rev set|t c e|len dest|pre|q off take vec|sep
+                 |pre lim|sep lim pre| |which|big k]; cbn [sstep].
   - reflexivity.
   - destruct (flat_read s n) as [[? ?] ?]. reflexivity.
   - reflexivity.
@@ -81,20 +120,29 @@ Proof.
   - destruct rev; reflexivity.
   - destruct rev; reflexivity.
   - reflexivity.
-  - destruct (nop || _); [reflexivity|]. destruct (flat_memcpy _ _ _). reflexivity.
+  - destruct (flat_memcpy _ _ _). reflexivity.
   - reflexivity.
   - unfold flat_get. destruct (length (ring_contents q) <? off); [reflexivity|].
     destruct (length (ring_contents q) - off <? take); [reflexivity|].
     destruct h; try reflexivity. destruct r as [?|[]|]; try reflexivity. destruct vec; reflexivity.
   - destruct (flat_array_message s sep). reflexivity.
+  - cbn [snd]. unfold flat_append_lim. destruct (match s with [] => _ | _ => _ end); reflexivity.
+  - cbn [snd]. unfold flat_array_message_lim. destruct s as [|b0 s0]; [reflexivity|].
+    destruct (lim_take lim) as [l1|]; [|reflexivity].
+    destruct (flat_args_lim _ _ _ _ _ _) as [[n a]|e|] eqn:E; [reflexivity|reflexivity|].
+    exfalso. exact (flat_args_lim_not_fault _ _ _ _ _ _ E).
+  - reflexivity.
+  - cbn [snd]. destruct (m_nullarg which); reflexivity.
+  - cbn [snd]. unfold flat_rbig. destruct (match rkind_pred k with Some p => _ | None => _ end); [|reflexivity].
+    destruct (_ <=? _)%N; reflexivity.
 Qed.
 
-Lemma run_no_fault ops : forall F, Forall op_ok ops ->
+Lemma run_no_fault ops : forall F, ops_ok F ops ->
   Forall (fun r => bad_out (fst r) = false) (mrun F ops).
 Proof.
   induction ops as [|o r IH]; intros F H; [constructor|].
-  inversion H as [|? ? Ho Hr]; subst. cbn [mrun].
-  pose proof (step_flat F o Ho) as E. destruct (mstep F o) as [F' x]. cbn [fst snd] in E.
+  destruct H as [Ho Hr]. cbn [mrun].
+  pose proof (step_flat F o Ho) as E. destruct (mstep F o) as [F' x]. cbn [fst snd] in E, Hr.
   constructor; [|apply IH; exact Hr].
   cbn [fst]. pose proof (sstep_not_bad (abs F) o x) as B. rewrite E in B. exact B.
 Qed.
